@@ -275,6 +275,7 @@ struct Tool {
     if (p.alloc_stride > 0 && r.chance(0.3)) { int ss[2] = {40, 400}; p.stall_s = ss[r.below(2)]; }
     if (r.chance(0.3)) { p.nmol = 4 + (int)r.below(5); p.sparse_mask = (long)(r.next() & 0xfff); if (r.chance(0.3)) p.sparse_mask = 0xaaa; }
     c05tool::tool_generate(p, r, tier);
+    if ((p.fmt == 1 || p.fmt == 3) && r.chance(0.12)) p.corrupt_frame = 1 + (int)r.below((uint64_t)p.F);  // fault: a damaged frame in the file
     if (!p.lattice && r.chance(0.3)) { p.top_fmt = 1 + (int)r.below(3); if (p.top_fmt == 3 && p.fmt == 3) p.top_fmt = 1; }  // xyz has no box: not for both files
     p.pick_strategy(r);
     return p;
@@ -284,7 +285,7 @@ struct Tool {
     js::Value v = js::Value::obj();
     p.base_to_json(v);
     v.set("tool", c05tool::engine_name).set("N", p.N).set("F", p.F).set("first_frame", p.first_frame).set("nframes", p.nframes)
-     .set("case_seed", (long long)p.case_seed).set("nmol", p.nmol).set("chain", p.chain).set("fmt", p.fmt).set("top_fmt", p.top_fmt).set("variant", p.variant)
+     .set("case_seed", (long long)p.case_seed).set("nmol", p.nmol).set("chain", p.chain).set("fmt", p.fmt).set("top_fmt", p.top_fmt).set("corrupt_frame", p.corrupt_frame).set("variant", p.variant)
      .set("block", p.block).set("vol_jitter", p.vol_jitter).set("alloc_stride", p.alloc_stride).set("stall_s", p.stall_s).set("sparse_mask", p.sparse_mask).set("lattice", p.lattice).set("variant_meaning", c05tool::tool_variant_json(p));
     return v;
   }
@@ -292,7 +293,7 @@ struct Tool {
     Plan p;
     p.base_from_json(v);
     p.N = (int)v.num("N", 2); p.F = (int)v.num("F", 1); p.first_frame = (long)v.num("first_frame", -1); p.nframes = (long)v.num("nframes", -1);
-    p.case_seed = (uint64_t)v.num("case_seed", 0); p.nmol = (int)v.num("nmol", 4); p.chain = (int)v.num("chain", 2); p.fmt = (int)v.num("fmt", 0); p.top_fmt = (int)v.num("top_fmt", 0);
+    p.case_seed = (uint64_t)v.num("case_seed", 0); p.nmol = (int)v.num("nmol", 4); p.chain = (int)v.num("chain", 2); p.fmt = (int)v.num("fmt", 0); p.top_fmt = (int)v.num("top_fmt", 0); p.corrupt_frame = (int)v.num("corrupt_frame", 0);
     p.variant = (int)v.num("variant", 0); p.block = (int)v.num("block", 0); p.vol_jitter = (int)v.num("vol_jitter", 0);
     p.alloc_stride = (long)v.num("alloc_stride", 0);
     p.stall_s = (int)v.num("stall_s", 0);
@@ -316,6 +317,7 @@ struct Tool {
     if (p.alloc_stride > 0) { Plan q = p; q.alloc_stride = 0; q.stall_s = 0; out.push_back(q); q = p; q.alloc_stride = p.alloc_stride * 4; out.push_back(q); }
     if (p.fmt && !p.lattice) { Plan q = p; q.fmt = 0; out.push_back(q); }
     if (p.top_fmt) { Plan q = p; q.top_fmt = 0; out.push_back(q); }
+    if (p.corrupt_frame) { Plan q = p; q.corrupt_frame = 0; out.push_back(q); }
     for (int b = 0; b < 8; b++) if (p.variant & (1 << b)) { Plan q = p; q.variant &= ~(1 << b); out.push_back(q); }
     if (p.strat_type != sim::Strategy::RW) { Plan q = p; q.strat_type = sim::Strategy::RW; out.push_back(q); }
     return out;
@@ -325,10 +327,21 @@ struct Tool {
     sim::Report rep;
     Case c;
     c05tool::tool_build(plan, c);
+    if (plan.corrupt_frame > 0 && (plan.fmt == 1 || plan.fmt == 3)) {
+      std::string &t = c.files[c05tool::trj_file(plan)];
+      // gro: "frame t= k" is followed by the count line; xyz: the count line precedes "frame k"
+      std::string title = (plan.fmt == 1 ? "frame t= " : "frame ") + std::to_string(plan.corrupt_frame) + "\n";
+      size_t at = t.find((plan.corrupt_frame == 1 && plan.fmt == 1 ? "" : "\n") + title);
+      if (at != std::string::npos) {
+        if (plan.fmt == 1) { size_t ls = t.find('\n', at + 1) + 1, le = t.find('\n', ls); t.replace(ls, le - ls, "n/a"); }
+        else { size_t le = at, ls = t.rfind('\n', le - 1); ls = ls == std::string::npos ? 0 : ls + 1; t.replace(ls, le - ls, "n/a"); }
+      }
+    }
     rm_dir_contents(g_scratch + "/in");
     for (auto &kv : c.files) write_file(g_scratch + "/in/" + kv.first, kv.second);
     Outcome ref = run_tool(plan, c, 1, g_scratch + "/ref", sim::SchedSpec(), 20000000, true);
-    if (ref.res.outcome != sim::RUN_OK || !ref.uncaught.empty()) {
+    const bool ref_terminated = ref.res.outcome == sim::RUN_OK && !ref.uncaught.empty() && plan.corrupt_frame > 0;
+    if ((ref.res.outcome != sim::RUN_OK || !ref.uncaught.empty()) && !ref_terminated) {
       rep.cls = "reference-run-failed";
       rep.key = rep.cls;
       rep.detail = "the --nt 1 run did not finish: " + ref.res.abort_class + " " + ref.res.abort_detail + ref.res.deadlock_graph + ref.uncaught;
@@ -398,12 +411,20 @@ struct Tool {
       case sim::RUN_ABORTED: fail(o.res.abort_class, o.res.abort_class + ":" + mode, o.res.abort_detail); return rep;
       default: break;
     }
+    if (ref_terminated) {
+      // the damaged frame makes the reader throw inside the worker thread of the --nt 1 run (std::terminate): every thread count must end the same way
+      if (o.uncaught.empty()) fail("outcome-differs", "outcome-differs:" + mode, "the --nt 1 run is terminated by an uncaught exception (" + ref.uncaught + "), this run ended with exit code " + std::to_string(o.exit_code));
+      else rep.counters["probe.terminated_like_the_reference"] = 1;
+      return rep;
+    }
     if (!o.uncaught.empty()) { fail("terminate", "terminate:" + mode, "uncaught exception in a worker thread: " + o.uncaught); return rep; }
     if (o.exit_code != ref.exit_code || o.err != ref.err) {
       fail("outcome-differs", "outcome-differs:" + mode, "exit code " + std::to_string(o.exit_code) + " / '" + o.err.substr(0, 200) + "' vs --nt 1: " +
                                                            std::to_string(ref.exit_code) + " / '" + ref.err.substr(0, 200) + "'");
       return rep;
     }
+    // an injected damaged frame that the tool turns into an orderly error exit: how far the other workers got is not the property's business
+    if (ref.exit_code != 0 && plan.corrupt_frame > 0) { rep.counters["probe.error_exit_like_the_reference"] = 1; return rep; }
     if (o.marked != ref.marked) {
       std::string why;
       if (!numerically_equal(o.marked, ref.marked, why, 2e-5)) {
